@@ -77,13 +77,26 @@ class Unit:
     def witness_constraints(self, ctx):
         return []
 
+    def hunt_candidates(self, ctx):
+        """optional: input assignments worth trying first when bug hunting (see hunt)"""
+        return []
+
     # ---- symbolic path
     def path(self, ctx, state):
         S = SymMode(ctx)
         SymTime.EPS = None
         with inject(self.patches()):
             args = self.build(S)
-            out = call_catching(self.call, args)
+            try:
+                out = call_catching(self.call, args)
+            except Unsupported as e:
+                # the engine cannot follow the code here (an operation the shadow values do not model): no verdict from the
+                # solver is possible on this path; fall back to bug hunting on solver models of the assumptions, then report
+                # the gap (INCONCLUSIVE) unless a real violation was reproduced
+                state["sym_out"] = Raised(RuntimeError(f"engine gap: {e}"))
+                if not self.hunt(ctx, "engine-gap", state):
+                    raise
+                return None
             checks = self.spec(S, args, out)
         state["sym_out"] = out
         for label, bad in checks:
@@ -223,8 +236,14 @@ class Unit:
             return False
         import random
         rng = random.Random(hash((self.name, label, "hunt")) & 0xFFFF)
-        for _ in range(8):
-            values = ctx.diverse_model(rng)
+        cands = list(self.hunt_candidates(ctx))[:64]
+        for i in range(len(cands) + 8):
+            if i < len(cands):
+                values = ctx.model_of_pc(*[ctx.inputs[k] == _val(v, ctx.inputs[k]) for k, v in cands[i].items() if k in ctx.inputs])
+                if values is None:
+                    continue
+            else:
+                values = ctx.diverse_model(rng)
             if values is None:
                 return False
             status, detail = self.replay(label, values)
